@@ -60,3 +60,191 @@ Example c04_lenient_nonvacuous :
   lookup (file_table_lenient secs [(3, 0, 40); (3, 0, 500); (8, 0, 600)]) 3 = LOffset 500 /\
   lookup (file_table_lenient secs [(3, 0, 40); (3, 0, 500); (8, 0, 600)]) 8 = LOffset 600.
 Proof. exact lenient_nonvacuous. Qed.
+
+(** * how the reader obtains the list of sections (theories/C04/ChainModel.v, ChainProofs.v)
+
+    A file = finite map  offset -> {section; /Prev; /XRefStm}  + the startxref offset;
+    [collect_sections] / [read_xref] = the loop of parse_with_incremental_updates_options. *)
+From OxVerif Require Import C04.ChainModel C04.ChainProofs.
+
+(** any map, cycles included: the loop ends (the fuel of the model is never exhausted) after at most
+    one section per offset of the map — by the visited set *)
+Theorem c04_chain_terminates : forall f,
+  collect_sections f <> WFuel /\ read_xref f <> WFuel /\
+  forall l, collect_sections f = WOk l -> (length l <= length (f_at f))%nat.
+Proof. exact chain_terminates_lemma. Qed.
+Check c04_chain_terminates : forall f,
+  collect_sections f <> WFuel /\ read_xref f <> WFuel /\
+  forall l, collect_sections f = WOk l -> (length l <= length (f_at f))%nat.
+Print Assumptions c04_chain_terminates.
+
+(** ... and more fuel never changes the result *)
+Theorem c04_chain_fuel_irrelevant : forall f j,
+  walk (f_at f) (fuel_of f + j) [] (Some (f_start f)) = collect_sections f.
+Proof. exact fuel_irrelevant_lemma. Qed.
+Check c04_chain_fuel_irrelevant : forall f j,
+  walk (f_at f) (fuel_of f + j) [] (Some (f_start f)) = collect_sections f.
+Print Assumptions c04_chain_fuel_irrelevant.
+
+(** without the visited set a /Prev pointing at its own section never ends *)
+Theorem c04_chain_novisit_refuted : exists m start, forall fuel, walk_novisit m fuel (Some start) = WFuel.
+Proof. exact novisit_refuted_lemma. Qed.
+Check c04_chain_novisit_refuted : exists m start, forall fuel, walk_novisit m fuel (Some start) = WFuel.
+Print Assumptions c04_chain_novisit_refuted.
+
+(** a well-formed revision chain (newest section at startxref, every /Prev = offset of the section of
+    the revision before, oldest without /Prev, no offset twice) is collected newest first *)
+Theorem c04_chain_newest_first : forall f ch,
+  is_chain f ch -> collect_sections f = WOk (map (fun p => s_sec (snd p)) ch).
+Proof. exact chain_newest_first_lemma. Qed.
+Check c04_chain_newest_first : forall f ch,
+  is_chain f ch -> collect_sections f = WOk (map (fun p => s_sec (snd p)) ch).
+Print Assumptions c04_chain_newest_first.
+
+(** EVERY file: following /Prev from startxref there is a duplicate-free path ch that ends at a section
+    without /Prev, or at a /Prev pointing back into the path (cycle) — the loop then returns exactly the
+    sections of ch, newest first, each once — or at an offset where nothing parses — then it returns Err *)
+Theorem c04_walk_shape : forall f,
+  exists ch stop,
+    path_from (f_at f) (Some (f_start f)) ch stop /\ NoDup (map fst ch) /\
+    match stop with
+    | None => collect_sections f = WOk (map (fun p => s_sec (snd p)) ch)
+    | Some b =>
+        (In b (map fst ch) /\ collect_sections f = WOk (map (fun p => s_sec (snd p)) ch))
+        \/ (mfind b (f_at f) = None /\ collect_sections f = WErr)
+    end.
+Proof. exact walk_shape_lemma. Qed.
+Check c04_walk_shape : forall f,
+  exists ch stop,
+    path_from (f_at f) (Some (f_start f)) ch stop /\ NoDup (map fst ch) /\
+    match stop with
+    | None => collect_sections f = WOk (map (fun p => s_sec (snd p)) ch)
+    | Some b =>
+        (In b (map fst ch) /\ collect_sections f = WOk (map (fun p => s_sec (snd p)) ch))
+        \/ (mfind b (f_at f) = None /\ collect_sections f = WErr)
+    end.
+Print Assumptions c04_walk_shape.
+
+(** ... and whatever was collected (any file, cycles included), the loop-carried table is the merge of
+    it and the newest collected section that mentions n wins *)
+Theorem c04_any_file_newest_collected_wins : forall f l,
+  collect_sections f = WOk l ->
+  read_xref f = WOk (file_table (rev l)) /\
+  forall n, lookup (file_table (rev l)) n = loc_of (spec_lookup (map rev_of_section (rev l)) n).
+Proof. exact any_file_newest_collected_wins_lemma. Qed.
+Check c04_any_file_newest_collected_wins : forall f l,
+  collect_sections f = WOk l ->
+  read_xref f = WOk (file_table (rev l)) /\
+  forall n, lookup (file_table (rev l)) n = loc_of (spec_lookup (map rev_of_section (rev l)) n).
+Print Assumptions c04_any_file_newest_collected_wins.
+
+(** the order ISO 32000-1 7.5.8.4 prescribes on such a chain: each update's section, then the stream
+    its trailer names with /XRefStm, then the /Prev chain *)
+Theorem c04_iso_sections_chain : forall f ch,
+  is_chain f ch ->
+  iso_sections f = concat (map (fun p => s_sec (snd p) :: xrefstm_secs (f_at f) (snd p)) ch).
+Proof. exact iso_sections_chain_lemma. Qed.
+Check c04_iso_sections_chain : forall f ch,
+  is_chain f ch ->
+  iso_sections f = concat (map (fun p => s_sec (snd p) :: xrefstm_secs (f_at f) (snd p)) ch).
+Print Assumptions c04_iso_sections_chain.
+
+(** composition with c04_merge_newest_wins: walk + merge + dispatch = newest revision wins.
+    Full statement (for every well-formed chain, hybrid or not):
+      forall f, wf_chain f -> exists t, read_xref f = WOk t /\
+                forall n, lookup t n = loc_of (spec_lookup (revisions_of f) n)
+    is FALSE for the code (c04_hybrid_refuted below); proved for chains without /XRefStm. *)
+Theorem c04_file_newest_wins : forall f,
+  wf_chain f -> nonhybrid f ->
+  exists t, read_xref f = WOk t /\ forall n, lookup t n = loc_of (spec_lookup (revisions_of f) n).
+Proof. exact file_newest_wins_lemma. Qed.
+Check c04_file_newest_wins : forall f,
+  wf_chain f -> nonhybrid f ->
+  exists t, read_xref f = WOk t /\ forall n, lookup t n = loc_of (spec_lookup (revisions_of f) n).
+Print Assumptions c04_file_newest_wins.
+
+(** the same with the hypothesis only on the sections the chain passes through *)
+Theorem c04_file_newest_wins_on : forall f ch,
+  is_chain f ch -> (forall p, In p ch -> xrefstm_secs (f_at f) (snd p) = []) ->
+  exists t, read_xref f = WOk t /\ forall n, lookup t n = loc_of (spec_lookup (revisions_of f) n).
+Proof. exact file_newest_wins_on_lemma. Qed.
+Check c04_file_newest_wins_on : forall f ch,
+  is_chain f ch -> (forall p, In p ch -> xrefstm_secs (f_at f) (snd p) = []) ->
+  exists t, read_xref f = WOk t /\ forall n, lookup t n = loc_of (spec_lookup (revisions_of f) n).
+Print Assumptions c04_file_newest_wins_on.
+
+(** hybrid-reference file: the loop never reads /XRefStm, the hidden objects stay free *)
+Theorem c04_hybrid_refuted :
+  exists f t n, wf_chain f /\ read_xref f = WOk t /\ lookup t n <> loc_of (spec_lookup (revisions_of f) n).
+Proof. exact hybrid_refuted_lemma. Qed.
+Check c04_hybrid_refuted :
+  exists f t n, wf_chain f /\ read_xref f = WOk t /\ lookup t n <> loc_of (spec_lookup (revisions_of f) n).
+Print Assumptions c04_hybrid_refuted.
+
+(** exactly what the code does on every well-formed chain: it answers for the file with all /XRefStm
+    keys deleted *)
+Theorem c04_file_ignores_xrefstm : forall f,
+  wf_chain f ->
+  exists t, read_xref f = WOk t /\ forall n, lookup t n = loc_of (spec_lookup (revisions_of (strip f)) n).
+Proof. exact file_ignores_xrefstm_lemma. Qed.
+Check c04_file_ignores_xrefstm : forall f,
+  wf_chain f ->
+  exists t, read_xref f = WOk t /\ forall n, lookup t n = loc_of (spec_lookup (revisions_of (strip f)) n).
+Print Assumptions c04_file_ignores_xrefstm.
+
+(** the candidate repair (parse the /XRefStm stream right after its section, before /Prev) meets the
+    standard on every well-formed chain *)
+Theorem c04_hybrid_repair_newest_wins : forall f,
+  wf_chain f ->
+  exists l, collect_sections_hybrid f = WOk l /\
+            forall n, lookup (file_table (rev l)) n = loc_of (spec_lookup (revisions_of f) n).
+Proof. exact hybrid_repair_newest_wins_lemma. Qed.
+Check c04_hybrid_repair_newest_wins : forall f,
+  wf_chain f ->
+  exists l, collect_sections_hybrid f = WOk l /\
+            forall n, lookup (file_table (rev l)) n = loc_of (spec_lookup (revisions_of f) n).
+Print Assumptions c04_hybrid_repair_newest_wins.
+
+(** find_xref_offset: the last complete startxref/number pair of the tail window wins *)
+Theorem c04_startxref_last_wins : forall pre k post,
+  settled pre -> ~ In LStartxref post ->
+  find_start (pre ++ LStartxref :: LNum k :: post) None = Some k.
+Proof. exact startxref_last_wins_lemma. Qed.
+Check c04_startxref_last_wins : forall pre k post,
+  settled pre -> ~ In LStartxref post ->
+  find_start (pre ++ LStartxref :: LNum k :: post) None = Some k.
+Print Assumptions c04_startxref_last_wins.
+
+(** tail + offset map -> table: the whole of parse_with_incremental_updates_options *)
+Theorem c04_open_newest_wins : forall pre k post m,
+  settled pre -> ~ In LStartxref post ->
+  let f := {| f_at := m; f_start := k |} in
+  wf_chain f -> nonhybrid f ->
+  exists t, open_xref (pre ++ LStartxref :: LNum k :: post) m = WOk t /\
+            forall n, lookup t n = loc_of (spec_lookup (revisions_of f) n).
+Proof. exact open_newest_wins_lemma. Qed.
+Check c04_open_newest_wins : forall pre k post m,
+  settled pre -> ~ In LStartxref post ->
+  let f := {| f_at := m; f_start := k |} in
+  wf_chain f -> nonhybrid f ->
+  exists t, open_xref (pre ++ LStartxref :: LNum k :: post) m = WOk t /\
+            forall n, lookup t n = loc_of (spec_lookup (revisions_of f) n).
+Print Assumptions c04_open_newest_wins.
+
+(** non-vacuity: hypotheses hold on a three-revision chain (classic / xref stream / classic, plus an
+    unreachable stray section); a two-section /Prev cycle is cut; the hybrid witness in numbers *)
+Example c04_chain_nonvacuous : wf_chain ex_file /\ nonhybrid ex_file.
+Proof. exact ex_file_hyps. Qed.
+Example c04_chain_values :
+  collect_sections ex_file = WOk [ex_r3; ex_r2; ex_r1] /\
+  (exists t, read_xref ex_file = WOk t /\
+     map (lookup t) [1; 2; 3; 4; 9] = [LOffset 17; LOffset 700; LNull; LOffset 500; LMissing]) /\
+  map (fun n => loc_of (spec_lookup (revisions_of ex_file) n)) [1; 2; 3; 4; 9]
+    = [LOffset 17; LOffset 700; LNull; LOffset 500; LMissing].
+Proof. exact ex_file_values. Qed.
+Example c04_hybrid_witness_values :
+  read_xref hyb_file = WOk (file_table [hyb_base; hyb_upd]) /\
+  map (lookup (file_table [hyb_base; hyb_upd])) [1; 2; 5; 6] = [LOffset 17; LOffset 350; LNull; LNull] /\
+  map (fun n => loc_of (spec_lookup (revisions_of hyb_file) n)) [1; 2; 5; 6]
+    = [LOffset 17; LOffset 350; LCompressed 6 0; LOffset 250].
+Proof. exact hybrid_witness_values. Qed.
